@@ -164,8 +164,8 @@ def renderRet : RetV → String
   | .user none => "val:-"
   | .user (some (u, v)) => "val:" ++ q u ++ "@" ++ toString v
 
-def dumpLines (s : State) : List String :=
-  let c := s.cache.mergeSort (fun a b => idLe a.1 b.1)
+def dumpLines (s : State) (withCache : Bool := true) : List String :=
+  let c := if withCache then s.cache.mergeSort (fun a b => idLe a.1 b.1) else []
   let st := s.store.mergeSort (fun a b => idLe a.1 b.1)
   c.map (fun e => "c " ++ q (renderID e.1) ++ " " ++ renderObj (s.obj e.2)) ++
   st.map (fun e => "s " ++ q (renderID e.1) ++ " " ++ renderRec e.2)
@@ -284,7 +284,7 @@ def emitOut (w : World) (wOld : World) (o : Out) (idx : Nat) (line : String) : L
     | some (some k) => ["crashinside " ++ toString k]
     | some none => ["nocrash"]
   let bg := o.bg.map renderEv
-  let dump := if o.dump then dumpLines w.st else []
+  let dump := if o.dump then dumpLines w.st o.dumpCache else []
   let jar := match o.jar with
     | none => []
     | some (c, none) => ["j " ++ c ++ " -"]
